@@ -250,15 +250,16 @@ WriteByte(off, n, tags, F) ==
                     ret == IF a.ok THEN 0 ELSE 1
                 IN Commit(c, "write", ret, rng, tags, Written(rng, tags, ret), cfg)
 
-\* unix_zeroout / unix_discard on a regular file (fallocate ZERO_RANGE / PUNCH_HOLE): zok = the kernel did it
-Zeroout(blk, n, zok, F) ==
+\* unix_zeroout / unix_discard on a regular file (fallocate ZERO_RANGE / PUNCH_HOLE): zok = the kernel did it;
+\* ztag = the value that stands for zeroes (0; the model checker passes a fresh value, which is the worst case)
+Zeroout(blk, n, zok, ztag, F) ==
    /\ open /\ n > 0 /\ InRange(blk, n) /\ WritePre /\ UNCHANGED <<bs, open>>
    /\ LET rng == Rng(blk, n)
-          zero == Zeros(Span(blk, n))
+          zero == TLCEval([j \in 1..Span(blk, n) |-> ztag])
           f == IF DevZeroBypassesCache THEN C0 ELSE FlushAll(C0, TRUE, F)                \* repaired: flush + invalidate first
       IN IF f.ferr THEN Commit(f, "write", 1, rng, zero, Written(rng, zero, 1), cfg)
          ELSE LET ret == IF zok THEN 0 ELSE 1
-                  c == IF zok THEN [f EXCEPT !.dev = TLCEval([g \in G |-> IF g \in rng THEN 0 ELSE @[g]])] ELSE f
+                  c == IF zok THEN [f EXCEPT !.dev = TLCEval([g \in G |-> IF g \in rng THEN ztag ELSE @[g]])] ELSE f
               IN Commit(c, "write", ret, rng, zero, Written(rng, zero, ret), cfg)
 
 Flush(F) ==
